@@ -1,0 +1,13 @@
+// +build verif
+
+package node
+
+// Verification hook of the in-process server engine (compiled only with
+// -tags verif). Add-only; nothing in here is referenced by production code.
+
+// VerifKVStore returns the store of a running KVNode (nil for nodes without a
+// kv state machine), so that a harness hosting a real server in-process can
+// take a raw engine dump of one partition.
+func (nd *KVNode) VerifKVStore() *KVStore {
+	return nd.store
+}
